@@ -178,16 +178,16 @@ inductive Cmd where
   | auth | begin | cancel | data | error | negotiate | unknown
   deriving DecidableEq, Repr
 
-def Cmd.name : Cmd → String
-  | .auth => "AUTH" | .begin => "BEGIN" | .cancel => "CANCEL" | .data => "DATA" | .error => "ERROR"
-  | .negotiate => "NEGOTIATE_UNIX_FD" | .unknown => ""
-
-def Cmd.known : List Cmd := [.auth, .begin, .cancel, .data, .error, .negotiate]
-
+/-- `getattr(self, '_auth_' + cmd.decode(), None)`: the attribute exists exactly for the six method names
+(`Gen.ServerAuth.commands`, see `Properties/C06.lean: commands_table`). -/
 def parseCmd (w : Bytes) : Cmd :=
-  match Cmd.known.find? (fun c => lit c.name = w) with
-  | some c => c
-  | none => .unknown
+  if w = lit "AUTH" then .auth
+  else if w = lit "BEGIN" then .begin
+  else if w = lit "CANCEL" then .cancel
+  else if w = lit "DATA" then .data
+  else if w = lit "ERROR" then .error
+  else if w = lit "NEGOTIATE_UNIX_FD" then .negotiate
+  else .unknown
 
 /-- `handleAuthMessage(line)` -/
 def handle (s : Server W I) (line : Bytes) : Out W I :=
